@@ -1,4 +1,5 @@
 pub mod c03;
+pub mod c19;
 pub mod diffprop;
 pub mod refprops;
 
@@ -12,6 +13,9 @@ pub fn all() -> Vec<Box<dyn Property>> {
         Box::new(refprops::c07()),
         Box::new(refprops::c08()),
         Box::new(refprops::c09()),
+        Box::new(refprops::c12()),
+        Box::new(refprops::c13()),
         Box::new(refprops::c18()),
+        Box::new(c19::C19),
     ]
 }
